@@ -14,7 +14,7 @@ func init() {
 	register(&propertyDef{
 		id:    "C01",
 		title: "every run terminates with one output or an error",
-		rules: []ruleFunc{c01R1, c01R2, c01R3, c01R4, c01R5, c01R6, c01R7, c01R8, c01R9, c01R10, c01R11, c01R12, c01R13, c01R14, c01R15},
+		rules: []ruleFunc{c01R1, c01R2, c01R3, c01R4, c01R5, c01R6, c01R7, c01R8, c01R9, c01R10, c01R11, c01R12, c01R13, c01R14, c01R15, c01R16},
 		decided: "the deadlock-freedom and single-hand-over disciplines termination depends on: single guarded send of the workflow output under the run lock (R1); " +
 			"no blocking channel operation, Wait or Sleep while the run lock or a step lock is held, error reports non-blocking (R2); lock order run-lock -> step-lock only, " +
 			"no handler callback under a step lock, no Close/Wait under a lock (R3); Execute registers the terminate-all teardown on every path after the first step start (R4); " +
@@ -1166,4 +1166,132 @@ func c01R15(c *Ctx) {
 		})
 	}
 	c.minCount(rule, "calls of checkForDeadlocks in onStageComplete", n, 1)
+}
+
+// C01.R16 a step that blocks on a stage input can show as waiting for input.
+func c01R16(c *Ctx) {
+	const rule = "C01.R16"
+	c.explain("C01.R16 every blocking wait of a step goroutine for an engine-provided stage input (a select on the stage's input channel without default, or a plain receive) is reached from a store of `waiting_for_input` into the step's state, with no other state store in between: a step that waits for an input without ever announcing that it waits shows `running` (or `starting`) for as long as the input does not arrive, the fallback detector — which reports only when no step is active — never fires, and a run whose remaining inputs can never arrive blocks Execute for ever")
+	n := 0
+	for _, pkg := range []string{pkgPlugin, pkgForeach} {
+		sf := c.stateFieldOf(pkg)
+		if sf == nil {
+			continue
+		}
+		chans := c.stageInputChannels(pkg)
+		isInputChan := func(v ssa.Value) string {
+			f := loadedField(v)
+			if f == nil {
+				return ""
+			}
+			for _, ch := range chans {
+				if fieldName(f) == ch {
+					return ch
+				}
+			}
+			return ""
+		}
+		for _, fn := range c.inPkgs(c.runFns(), pkg) {
+			eachInstr(fn, func(r instrRef) {
+				ch := ""
+				switch x := r.I.(type) {
+				case *ssa.Select:
+					if !x.Blocking {
+						return
+					}
+					for _, st := range x.States {
+						if st.Dir == types.RecvOnly {
+							if nm := isInputChan(st.Chan); nm != "" {
+								ch = nm
+							}
+						}
+					}
+				case *ssa.UnOp:
+					if x.Op == token.ARROW {
+						ch = isInputChan(x.X)
+					}
+				}
+				if ch == "" {
+					return
+				}
+				n++
+				// "may be waiting_for_input": the constant, or a variable that holds it on some path
+				var mayWait func(v ssa.Value, d int) bool
+				mayWait = func(v ssa.Value, d int) bool {
+					if d > 3 {
+						return false
+					}
+					if isConstStr(v, "waiting_for_input") {
+						return true
+					}
+					if cv, ok := v.(*ssa.ChangeType); ok {
+						return mayWait(cv.X, d+1)
+					}
+					if ph, ok := v.(*ssa.Phi); ok {
+						for _, e := range ph.Edges {
+							if mayWait(e, d+1) {
+								return true
+							}
+						}
+					}
+					return false
+				}
+				// an announcement in g that can reach the instruction `at` of g: a store of (possibly) waiting_for_input into
+				// the state field, or a call of a function that stores such an argument there
+				announcedBefore := func(g *ssa.Function, at ssa.Instruction) bool {
+					found := false
+					eachInstr(g, func(r2 instrRef) {
+						if found {
+							return
+						}
+						isAnn := false
+						switch y := r2.I.(type) {
+						case *ssa.Store:
+							if fa, ok := y.Addr.(*ssa.FieldAddr); ok && fieldAddrVar(fa) == sf && mayWait(y.Val, 0) {
+								isAnn = true
+							}
+						case *ssa.Call:
+							h := y.Common().StaticCallee()
+							if h != nil && isRepoFn(h) && len(h.Blocks) > 0 {
+								for ai, a := range y.Common().Args {
+									if !mayWait(a, 0) || ai >= len(h.Params) {
+										continue
+									}
+									for _, vs := range c.fieldStoresIn(h, sf) {
+										if vs.val == ssa.Value(h.Params[ai]) {
+											isAnn = true
+										}
+										if ph, ok := vs.val.(*ssa.Phi); ok {
+											for _, e := range ph.Edges {
+												if e == ssa.Value(h.Params[ai]) {
+													isAnn = true
+												}
+											}
+										}
+									}
+								}
+							}
+						}
+						if isAnn && c.findPath(g, r2.I, func(ssa.Instruction) bool { return false }, func(in ssa.Instruction) bool { return in == at }) != nil {
+							found = true
+						}
+					})
+					return found
+				}
+				announced := announcedBefore(fn, r.I)
+				if !announced {
+					// the announcement is made by the caller before it calls this function (run() announces, runOnInput waits)
+					for _, st := range c.CG().callers[fn] {
+						if g := st.Instr.Parent(); g != nil && announcedBefore(g, st.Instr) {
+							announced = true
+						}
+					}
+				}
+				key := fmt.Sprintf("wait:%s:%s", c.fnName(fn), ch)
+				c.verdict(announced, rule, key, c.instrPos(r.I), "the wait on "+ch+" can be reached in state waiting_for_input",
+					c.fnName(fn)+" blocks on "+ch+" without a preceding store of waiting_for_input: while the input does not arrive the step counts as active, the fallback detector never reports, and a run whose remaining inputs can never arrive does not end")
+			})
+		}
+	}
+	c.minCount(rule, "blocking waits for stage inputs", n, 4)
 }
